@@ -241,13 +241,14 @@ func buildShadow(o *world.Obs, ignoreLoc map[int]bool) *Shadow {
 				sh.markUncertain(nf, h, "client conditional")
 				continue
 			}
-			if !c.Fg && overlapsOther(o, c, nf) {
-				// two background validations of one URL in flight together: which one the
-				// store ends up reflecting is not judged (DESIGN §3.21)
+			target := sh.find304Target(nf, h, c)
+			if !c.Fg && overlapsOther(o, c, nf, target) {
+				// a background validation in flight together with another request for the same
+				// variant (a reload, a second background validation): which one the store ends
+				// up reflecting is not judged (DESIGN §3.21, §9)
 				sh.markUncertain(nf, h, "concurrent background validations")
 				continue
 			}
-			target := sh.find304Target(nf, h, c)
 			if target == nil {
 				sh.markUncertain(nf, h, "304 without identifiable target")
 				continue
@@ -320,7 +321,7 @@ func buildShadow(o *world.Obs, ignoreLoc map[int]bool) *Shadow {
 		if validated != nil {
 			ne.Replaced = validated.Reply
 		}
-		if !c.Fg && (!c.Completed || overlapsOther(o, c, nf)) {
+		if !c.Fg && (!c.Completed || overlapsOther(o, c, nf, ne)) {
 			// stored by a background goroutine while other requests for the URL were running:
 			// which writer's index update wins is not judged (DESIGN §3.21)
 			ne.Certain = false
@@ -334,18 +335,22 @@ func buildShadow(o *world.Obs, ignoreLoc map[int]bool) *Shadow {
 	return sh
 }
 
-// overlapsOther: another call for the same URL was in flight at the moment c ended - when
-// its result is written back. (A request that began and ended while c was waiting for the
-// origin is no concurrent writer: the write-back works on the index as it is then, so what
-// that request stored is still there afterwards.)
-func overlapsOther(o *world.Obs, c *world.Call, nf string) bool {
+// overlapsOther: another call for the same URL - and, as far as can be told, for the variant
+// of entry e (nil: any) - was in flight at some time during c. A request for a variant that is
+// surely another one is no concurrent writer of e: the write-back of c works on the index as it
+// is when c ends, so what that request stored is still there afterwards, and what c brings
+// reaches e.
+func overlapsOther(o *world.Obs, c *world.Call, nf string, e *ShadowEntry) bool {
 	for _, d := range o.Calls {
 		if d == c || d.Ex < 0 || d.Ex >= len(o.Exchanges) {
 			continue
 		}
-		if d.StartSeq < c.EndSeq && (!d.Completed || d.EndSeq > c.EndSeq) {
-			if dnf, ok := model.NF(o.Exchanges[d.Ex].Req.URL, false); ok && dnf == nf {
-				return true
+		if d.StartSeq < c.EndSeq && (!d.Completed || d.EndSeq > c.StartSeq) {
+			rq := o.Exchanges[d.Ex].Req
+			if dnf, ok := model.NF(rq.URL, false); ok && dnf == nf {
+				if e == nil || e.match(ReqHeader(rq)) != "no" {
+					return true
+				}
 			}
 		}
 	}
